@@ -12,6 +12,7 @@ CHECKS = {
         "assumptions": ["task ids of tasks handled by a worker are unique (as in production: UUIDs); duplicate ids are exercised on the pure list operations only"],
         "parts": [
             {"part": "purelist", "test": "TestPureList", "quick": {"checks": 4000, "shards": 2}, "thorough": {"checks": 1500000, "shards": 8}},
+            {"part": "racing", "test": "TestRacing", "owned_schedule": False, "quick": {"checks": 2400, "shards": 8}, "thorough": {"checks": 200000, "shards": 16, "timeout": 3000}},
             {"part": "worker", "test": "TestWorker", "quick": {"checks": 4000, "shards": 6}, "thorough": {"checks": 1200000, "shards": 16, "timeout": 3000}},
         ],
     },
@@ -124,8 +125,10 @@ CHECKS = {
         "technique": "property-based differential testing (rapid): JSON vs YAML renderings of generated operation streams on identical fake clusters, plus a reference model per operation",
         "level_text": "Random operation streams in three renderings executed by the real parser and ObjectPatcher against fake clusters; final state, error class and client actions compared with each other and with a reference model; invalid streams must be rejected as a whole. Search, not proof.",
         "level_note": "Trusted: client-go object tracker as the cluster (patches are applied by the tracker's evanphx/json-patch; the reference uses its own RFC 7386 / 6902-subset evaluator); propagation policies are checked as requested, not as executed by a garbage collector.",
+        "fuzz": [{"part": "bytes", "target": "FuzzPatchBytes", "seconds": 180}],
         "parts": [
             {"part": "patch", "test": "TestPatch", "quick": {"checks": 640, "shards": 16}, "thorough": {"checks": 30000, "shards": 16, "timeout": 3000}},
+            {"part": "bytes", "test": "TestPatchBytes", "quick": {"checks": 8000, "shards": 8}, "thorough": {"checks": 400000, "shards": 16, "timeout": 3000}},
         ],
     },
     "C10": {
@@ -133,6 +136,7 @@ CHECKS = {
         "technique": "grammar-based property testing (rapid): generated config descriptions rendered as JSON/YAML twins vs documented effective config; single-fault mutants; arbitrary bytes",
         "level_text": "Random documents from the documented grammar loaded by the real LoadAndValidate: JSON/YAML equivalence, equality with the documented effective configuration, rejection of 22 kinds of single-fault mutants, no panic on arbitrary bytes. Search, not proof.",
         "level_note": "Trusted: the expected-effective-config function written from docs/src/HOOKS.md; include lists are compared as sets.",
+        "fuzz": [{"part": "bytes", "target": "FuzzBytes", "seconds": 180}],
         "parts": [
             {"part": "config", "test": "TestConfig", "quick": {"checks": 4000, "shards": 8}, "thorough": {"checks": 200000, "shards": 16, "timeout": 3000}},
             {"part": "bytes", "test": "TestBytes", "quick": {"checks": 16000, "shards": 8}, "thorough": {"checks": 1000000, "shards": 16, "timeout": 3000}},
@@ -218,6 +222,7 @@ CHECKS = {
         "level_note": "Trusted: scripted hook copies the context file verbatim; gojq for the independent filter evaluation; fake cluster watch semantics.",
         "parts": [
             {"part": "e2e", "test": "TestContexts", "quick": {"checks": 400, "shards": 16, "shrinktime": "90s", "timeout": 900}, "thorough": {"checks": 6000, "shards": 16, "shrinktime": "180s", "timeout": 6000}, "owned_schedule": False},
+            {"part": "names", "test": "TestBindingNames", "quick": {"checks": 160, "shards": 16, "shrinktime": "60s", "timeout": 900}, "thorough": {"checks": 4000, "shards": 16, "shrinktime": "120s", "timeout": 6000}, "owned_schedule": False},
             {"part": "webhooks", "test": "TestWebhookContexts", "quick": {"checks": 240, "shards": 16, "shrinktime": "60s", "timeout": 900}, "thorough": {"checks": 6000, "shards": 16, "shrinktime": "120s", "timeout": 6000}, "owned_schedule": True},
         ],
     },
